@@ -60,6 +60,7 @@ type corrOpts struct {
 var suites = map[string]func(o corrOpts) *res.Summary{
 	"iset":    func(o corrOpts) *res.Summary { return corrISet(o.tier, o.seed, o.replay) },
 	"excerpt": corrExcerpt,
+	"shift":   corrShift,
 	"cfg":     corrCfg,
 	"std":     corrStd,
 	"gram":    corrGram,
